@@ -8,6 +8,7 @@ mod diag;
 mod phyrx;
 mod las;
 mod scan;
+mod fdl;
 mod util;
 
 use std::io::{BufRead, Write};
@@ -23,6 +24,7 @@ const DOMAINS: &[(&str, GenFn, RunFn)] = &[
     ("phyrx", phyrx::gen, phyrx::run_case),
     ("las", las::gen, las::run_case),
     ("scan", scan::gen, scan::run_case),
+    ("fdl", fdl::gen, fdl::run_case),
 ];
 
 fn main() {
